@@ -81,14 +81,14 @@ def trunc_div(a, b):
 def shim(ret, name, params, body):
     """extern "C" by-value shim text; params: list of (short type, name)"""
     ps = ', '.join('%s %s' % (cxx(t), n) for t, n in params)
-    return 'extern "C" %s %s(%s) { %s }\n' % (ret if ret in ('bool', 'void', 'int') else cxx(ret), name, ps, body)
+    return 'extern "C" %s %s(%s) { %s }\n' % (ret if ret in ('bool', 'void', 'int', 'auto') else cxx(ret), name, ps, body)
 
 
 # ----------------------------------------------------------------------------- facts: compile-time constants read from the IR
 
 def fact_shim(name, expr):
     """extern "C" nullary function returning a compile-time constant of the instantiation (clang folds it at -O0)"""
-    return 'extern "C" long long vp_fact_%s() { return static_cast<long long>(%s); }\n' % (name, expr)
+    return 'extern "C" long long vp_fact_%s() { constexpr auto vp_v = (%s); return static_cast<long long>(vp_v); }\n' % (name, expr)
 
 
 def fact_value(tr, name):
@@ -173,7 +173,10 @@ def builtin_sem(op, L, R, le, re_):
         req.append('%s != 0' % rcm)
         if Res.signed:
             req.append('!(%s == %s && %s == -1)' % (lcm, wconst(Res.min, w), rcm))
-        return dict(res=Res, requires=req, value='((%s)(%s %s %s))' % (Res.ctype, lcm, sym, rcm), w=w)
+        # the quotient is computed at the width and signedness of the common type, exactly as the language defines it
+        # (and as the extracted code does): no second divider of another width enters the proof
+        ls_, rs_ = '((%s)%s)' % (Res.sctype, lc), '((%s)%s)' % (Res.sctype, rc)
+        return dict(res=Res, requires=req, value='((%s)(%s %s %s))' % (Res.ctype, ls_, sym, rs_), w=w)
     if op in ('bitwise_and', 'bitwise_or', 'bitwise_xor'):
         sym = {'bitwise_and': '&', 'bitwise_or': '|', 'bitwise_xor': '^'}[op]
         return dict(res=Res, requires=[], value='((%s)(%s %s %s))' % (Res.ctype, lc, sym, rc), w=w)
